@@ -12,8 +12,8 @@ META = dict(
 
 
 def histories(rnd, count, nops, types):
-    for _ in range(count):
-        t = make_table(rnd, types)
+    for ti in range(count):
+        t = make_table(rnd, types, shape=SHAPES[ti] if ti < len(SHAPES) else None)
         t['areas'] = [a[:4] + (a[4], 1, a[6]) for a in t['areas']]          # every area can be written by the table (sanitise must be able to restore)
         t['regs'] = [r if r[2] != 1 else (r[0], r[1], 4, r[3], r[4], r[5]) for r in t['regs']]   # no always-fail registers
         for inf in t['info']:
